@@ -32,6 +32,15 @@ class StopSentinel:  # pylint: disable=too-few-public-methods
     """
 
 
+class FailedCall:  # pylint: disable=too-few-public-methods
+    """The mapped function raised. Carries the exception from the worker
+    thread to the consumer.
+    """
+
+    def __init__(self, exception: Exception) -> None:
+        self.exception: Exception = exception
+
+
 class LazyPool:
     """Lazy version of `concurrent.futures.ThreadPoolExecutor.map`. Allows to
     iterate content of shards without reading all of them into memory if they
@@ -148,6 +157,10 @@ class LazyPool:
             if isinstance(next_result, StopSentinel):
                 self._active_threads -= 1
                 continue
+            if isinstance(next_result, FailedCall):
+                # Stop the threads and re-raise in the consuming thread.
+                self.finish_and_reset()
+                raise next_result.exception
 
             # New element to be processed. After the potentially finite
             # `iterator` we append an infinite number of `StopSentinel`s so the
@@ -215,5 +228,10 @@ class Collector(threading.Thread):
                 return
 
             # Can be blocking, but should be short.
-            self._results.put(self.func(element))
+            result: Any
+            try:
+                result = self.func(element)
+            except Exception as exc:  # pylint: disable=broad-exception-caught
+                result = FailedCall(exc)
+            self._results.put(result)
             time.sleep(0.0)  # Give up GIL.
